@@ -169,6 +169,10 @@ class kFlowDecompCycles(walkmodel.AbstractWalkModelDiGraph):
             # Given weights are tied to the walk indices, so the walks are not interchangeable: a safe sequence
             # is not necessarily in the walk with its index, and the edges incompatible with it cannot be forbidden there
             self.optimization_options["optimize_with_safe_sequences_fix_zero_edges"] = False
+            # For the same reason the sequences cannot be fixed to the walks with their indices: unless the caller asked for them
+            # (which is rejected below), safe sequences - on by default in the base class - are switched off
+            if "optimize_with_safe_sequences" not in self.optimization_options:
+                self.optimization_options["optimize_with_safe_sequences"] = False
 
         # Call the constructor of the parent class AbstractPathModelDAG
         # Build per-edge repetition upper bounds: use the edge flow when available,
